@@ -28,6 +28,7 @@ class Built:
         self.graphs: list[ir.Graph] = []
         self.nid: dict[int, int] = {}  # id(node) -> node id
         self.detached: list[ir.Node] = []  # nodes that are in no graph when the sort runs
+        self.ginputs: list[list[ir.Value]] = []
         self.keepalive: list[Any] = []
 
 
@@ -160,9 +161,98 @@ def build(spec: G.Spec, variant: str = "A", seed: int = 0) -> Built:
 
     if history:
         apply_moves(nodes, graphs, history["moves"])
-    b.nodes, b.graphs, b.detached = nodes, graphs, dnodes
+    b.nodes, b.graphs, b.detached, b.ginputs = nodes, graphs, dnodes, ginputs
     b.nid = {id(n): k for k, n in enumerate(nodes)}
+    apply_names(b, spec.get("names", []))
     return b
+
+
+def resolve(b: Built, ref) -> ir.Value | None:
+    if ref is None:
+        return None
+    if ref[0] == "n":
+        return b.nodes[ref[1]].outputs[ref[2]]
+    if ref[0] == "d":
+        return b.detached[ref[1]].outputs[ref[2]]
+    return b.ginputs[ref[1]][ref[2]]
+
+
+def apply_names(b: Built, names: list) -> None:
+    """Names cleared / emptied through the public setters, once everything is in its graph."""
+    for what, name in names:
+        if what[0] == "n":
+            b.nodes[what[1]].name = name
+        elif what[0] == "v":
+            b.nodes[what[1]].outputs[what[2]].name = name
+        else:
+            b.ginputs[what[1]][what[2]].name = name
+
+
+def _new_node(b: Built, nout: int, refs: list) -> ir.Node:
+    nid = len(b.nodes)
+    node = ir.Node("", "Op", inputs=[None] * len(refs), num_outputs=nout, name=f"n{nid}")
+    for k, o in enumerate(node.outputs):
+        o.name = f"n{nid}_o{k}"
+    b.nodes.append(node)
+    b.nid[id(node)] = nid
+    return node
+
+
+def apply_edit(b: Built, spec: G.Spec, e: dict) -> None:
+    """One edit of a stage (c12_gen) on the live objects, through the public API.  ``spec`` is the
+    unit's structure after the edit (for the operator name of a node that got a graph attribute)."""
+    op = e["op"]
+    if op == "rewire":
+        node = b.nodes[e["node"]]
+        if e.get("grow"):
+            node.resize_inputs(e["slot"] + 1)
+        node.replace_input_with(e["slot"], resolve(b, e["ref"]))
+    elif op == "rauw":
+        resolve(b, e["value"]).replace_all_uses_with(resolve(b, e["by"]))
+    elif op == "add_attr":
+        new_graphs, wiring = [], []
+        for gs in e["graphs"]:
+            gid = len(b.graphs)
+            b.ginputs.append([ir.Value(name=f"g{gid}_in{k}") for k in range(gs["nin"])])
+            members = []
+            for ns in gs["nodes"]:
+                members.append(_new_node(b, ns["nout"], ns["inputs"]))
+                wiring.append((members[-1], ns["inputs"]))
+            b.graphs.append(ir.Graph(b.ginputs[gid], [], nodes=members, name=f"g{gid}"))
+            new_graphs.append(b.graphs[-1])
+        for node, refs in wiring:
+            for k, r in enumerate(refs):
+                if r is not None:
+                    node.replace_input_with(k, resolve(b, r))
+        owner = b.nodes[e["node"]]
+        owner.attributes[e["name"]] = ir.AttrGraph(e["name"], new_graphs[0]) if e["kind"] == "G" \
+            else ir.AttrGraphs(e["name"], new_graphs)
+        owner.op_type = _op_type(spec["nodes"][e["node"]])
+    elif op == "add_node":
+        node = _new_node(b, e["nout"], e["inputs"])
+        for k, r in enumerate(e["inputs"]):
+            if r is not None:
+                node.replace_input_with(k, resolve(b, r))
+        w = e["where"]
+        try:
+            if w[0] == "append":
+                b.graphs[e["g"]].append(node)
+            elif w[0] == "before":
+                b.graphs[e["g"]].insert_before(b.nodes[w[1]], node)
+            else:
+                b.graphs[e["g"]].insert_after(b.nodes[w[1]], node)
+        except Exception as ex:  # noqa: BLE001
+            raise MoveFailed(f"adding a new node raised {type(ex).__name__}: {ex}"[:300]) from ex
+    elif op == "move":
+        apply_moves(b.nodes, b.graphs, [e["move"]])
+    elif op == "rename":
+        apply_names(b, [[e["what"], e["name"]]])
+    else:
+        raise AssertionError(op)
+
+
+def all_names(b: Built) -> list:
+    return [[n.name, [o.name for o in n.outputs]] for n in b.nodes]
 
 
 def apply_moves(nodes: list, graphs: list, moves: list) -> None:
@@ -282,18 +372,13 @@ def make_sorter(case: dict, builts: list[Built]):
     raise AssertionError(target)
 
 
-def execute(case: dict, variant: str = "A", seed: int = 0, resort: bool = True) -> dict:
-    """Build every unit of the case, sort once (and once more if that succeeded), and report
-    everything the oracle needs as plain data."""
-    try:
-        builts = [build(spec, variant, seed + k) for k, spec in enumerate(case["units"])]
-    except MoveFailed as e:
-        return {"move_failed": str(e)}
+def _sort_and_observe(builts: list[Built], sorter, resort: bool) -> dict[str, Any]:
     out: dict[str, Any] = {
         "pre": [orders(b) for b in builts],
         "cons": [object_constraints(b) for b in builts],
     }
-    sorter = make_sorter(case, builts)
+    light = not resort  # (twin builds and hash-seed children: only the outcome is looked at)
+    names = None if light else [all_names(b) for b in builts]
     out["exc"], out["exc_text"], out["modified"] = None, "", None
     try:
         out["modified"] = sorter()
@@ -301,10 +386,13 @@ def execute(case: dict, variant: str = "A", seed: int = 0, resort: bool = True) 
         out["exc"] = "ValueError" if isinstance(e, ValueError) else type(e).__name__
         out["exc_text"] = f"{type(e).__name__}: {e}"[:300]
     out["post"] = [orders(b) for b in builts]
+    out["exc2"], out["post2"] = None, None
+    if light:
+        return out
     out["faults"] = [f for b in builts for f in membership_faults(b)]
     out["reversed_differs"] = sum(1 for b in builts for g in b.graphs if list(reversed(g))[::-1] != list(g))
+    out["names_changed"] = [all_names(b) for b in builts] != names
     out["cons_after"] = [object_constraints(b) for b in builts] if out["exc"] is None else None
-    out["exc2"], out["post2"] = None, None
     if resort and out["exc"] is None:
         try:
             sorter()
@@ -312,3 +400,44 @@ def execute(case: dict, variant: str = "A", seed: int = 0, resort: bool = True) 
             out["exc2"] = f"{type(e).__name__}: {e}"[:300]
         out["post2"] = [orders(b) for b in builts]
     return out
+
+
+def execute(case: dict, variant: str = "A", seed: int = 0, resort: bool = True) -> dict:
+    """Build every unit of the case, sort once (and once more if that succeeded), and report
+    everything the oracle needs as plain data.  With ``case["stages"]``: then, for every stage,
+    apply its edits to the live objects and call the same entry point again; ``out["stages"]`` holds
+    one record per executed stage (same keys, plus ``units`` = the structure after the edits with
+    the orders observed before that sort)."""
+    try:
+        builts = [build(spec, variant, seed + k) for k, spec in enumerate(case["units"])]
+    except MoveFailed as e:
+        return {"move_failed": str(e)}
+    sorter = make_sorter(case, builts)
+    out = _sort_and_observe(builts, sorter, resort)
+    if case.get("stages"):
+        out["stages"] = []
+        specs = [G.strip_history(un) for un in case["units"]]
+        prev = out
+        for stage in case["stages"]:
+            if prev["exc"] not in (None, "ValueError") or prev["exc2"] or -1 in [x for u in prev["post"] for o in u for x in o]:
+                break  # (already a finding; what follows would not be interpretable)
+            try:
+                for e in stage:
+                    specs[e["u"]] = G.apply_edit(specs[e["u"]], e)
+                    apply_edit(builts[e["u"]], specs[e["u"]], e)
+                for b, sp in zip(builts, specs):
+                    apply_names(b, sp.get("names", []))
+            except MoveFailed as ex:
+                out["stages"].append({"move_failed": str(ex)})
+                break
+            rec = _sort_and_observe(builts, sorter, resort)
+            rec["units"] = [G.with_orders(sp, pre) for sp, pre in zip(specs, rec["pre"])]
+            out["stages"].append(rec)
+            prev = rec
+    return out
+
+
+def outcome(r: dict) -> dict:
+    """What a run ended in, as comparable plain data (every sort of a staged case)."""
+    recs = [r] + [s for s in r.get("stages", [])]
+    return {"exc": [x.get("exc", "move operation raised") for x in recs], "post": [x.get("post") for x in recs]}
